@@ -104,7 +104,7 @@ def check(ctx: Ctx) -> None:
 
     with ctx.obligation("C12.d", "strconfig-plumbing") as ob:
         pairs = 0
-        for fi in repo.funcs.values():
+        for fi in repo.scan_funcs():
             for n in repo.own_nodes(fi):
                 if isinstance(n, ast.Tuple) and len(n.elts) == 2 and any(_ends(e, P2) or _ends(e, P3) for e in n.elts):
                     pairs += 1
